@@ -103,7 +103,7 @@ func (r *Relay) ClosePort() {
 func (r *Relay) ReopenPort() error {
 	var c *net.UDPConn
 	var err error
-	for try := 0; try < 50; try++ {
+	for try := 0; try < 1500; try++ { // another process may hold the number for a moment as an ephemeral source port
 		if c, err = net.ListenUDP("udp", &net.UDPAddr{IP: net.ParseIP("127.0.0.1"), Port: int(r.Port)}); err == nil {
 			break
 		}
